@@ -37,6 +37,7 @@ Inductive op :=
 | OStartWrite (h f tag ref len : Z)
 | OStartAccess (h f tag ref flags : Z)
 | OHLcreate (h f tag ref bl nb : Z)
+| OHXcreate (h f tag ref len : Z)
 | OAppendable (h : Z)
 | OWrite (h : Z) (bytes : list Z)
 | ORead (h n : Z)
@@ -111,7 +112,7 @@ Definition with_handle (s : state) (h : Z) (k : hnd -> elem -> list elem -> stat
 
 Definition opens_slot (o : op) : option Z :=
   match o with
-  | OStartWrite h _ _ _ _ | OStartAccess h _ _ _ _ | OHLcreate h _ _ _ _ _ => Some h
+  | OStartWrite h _ _ _ _ | OStartAccess h _ _ _ _ | OHLcreate h _ _ _ _ _ | OHXcreate h _ _ _ _ => Some h
   | _ => None
   end.
 
@@ -174,6 +175,23 @@ Definition step1 (s : state) (o : op) : state * res :=
               if e_linked e then (s, RFail)
               else
                 let e' := mkelem k (if e_new e then [] else e_data e) true false (e_alias e) in
+                (set_hnd (set_elems s f (eset e' es)) h (mkhnd f k 0 false true), ROk [] None)
+          end
+      end
+  | OHXcreate h f tag ref len =>
+      (* an external element behaves like a linked-block one: always extendable, unbounded seeks *)
+      match file_elems s f with
+      | None => (s, RFail)
+      | Some es =>
+          let k := (tag, ref) in
+          match efind k es with
+          | None =>
+              let e := mkelem k (repeat (-2) (Z.to_nat len)) true false false in
+              (set_hnd (set_elems s f (eset e es)) h (mkhnd f k 0 false true), ROk [] None)
+          | Some e =>
+              if has_handle_on s f k || e_alias e || is_mayprom s f k || e_linked e || e_new e then (s, RUnspec)
+              else
+                let e' := mkelem k (e_data e) true false false in
                 (set_hnd (set_elems s f (eset e' es)) h (mkhnd f k 0 false true), ROk [] None)
           end
       end
